@@ -311,7 +311,41 @@ fn run_sql_batch(ty: &str, vals: &[DataValue]) -> String {
         Ok(Err(_)) => "err".into(),
         Err(_) => "panic".into(),
     };
-    format!("vals:{vals_back};lt:{lt};eqjoin:{eqj};asc:{asc};desc:{desc};groups:{groups};distinct:{distinct};minmax:{mm}")
+    // the six comparison kernels called directly on arrays holding all pairs (i, j)
+    let kern = match vals.iter().find(|v| !v.is_null()) {
+        None => "none".to_string(),
+        Some(rep) => {
+            let ty = rep.data_type();
+            let r = catch(|| {
+                let n = vals.len();
+                let mut a = ArrayBuilderImpl::new(&ty);
+                let mut b = ArrayBuilderImpl::new(&ty);
+                for i in 0..n {
+                    for j in 0..n {
+                        a.push(&vals[i]);
+                        b.push(&vals[j]);
+                    }
+                }
+                let (a, b) = (a.finish(), b.finish());
+                let show = |r: Result<ArrayImpl, ConvertError>| -> String {
+                    match r {
+                        Err(_) => "none".into(),
+                        Ok(arr) => (0..arr.len())
+                            .map(|k| match arr.get(k) {
+                                DataValue::Bool(true) => 't',
+                                DataValue::Bool(false) => 'f',
+                                DataValue::Null => 'n',
+                                _ => '?',
+                            })
+                            .collect(),
+                    }
+                };
+                [a.eq(&b), a.ne(&b), a.gt(&b), a.lt(&b), a.ge(&b), a.le(&b)].map(show).join(",")
+            });
+            r.unwrap_or_else(|_| "panic".into())
+        }
+    };
+    format!("vals:{vals_back};kern:{kern};lt:{lt};eqjoin:{eqj};asc:{asc};desc:{desc};groups:{groups};distinct:{distinct};minmax:{mm}")
 }
 
 // ---------------------------------------------------------------------------------------------
